@@ -6,4 +6,6 @@ Require Import ExtrOcamlBasic ExtrOcamlString.
 Extraction Language OCaml.
 Extraction "../ocaml/c09/model.ml" encode_request serialize_request parse_frame frame_says
   oversize batch_counts_match set_stream decompress
-  batch_body_len uniform_batch_outcome size_outcome body_too_long compress_append make_frame.
+  batch_body_len uniform_batch_outcome size_outcome body_too_long compress_append make_frame
+  bind_row mini_ser big_outcome
+  opcode cons_code serial_code batch_type_code event_name frame_flags qp_flags batch_flags.
